@@ -83,6 +83,26 @@ def h3(led, rid, ctx):
                       "the profile heights it builds are compared with the capacity",
                       "%s builds a time-table without ever comparing a profile height with the capacity: "
                       "an overflow cannot raise the conflict the constraint is defined by" % f.name)
+    # (a') MUST-PASS: no loop-free way through a from-scratch builder avoids every capacity comparison
+    for f in lib.fns.values():
+        if "/cumulative/time_table/" not in f.file or "/tests" in f.file or f.kind != "Fn":
+            continue
+        if not (f.name.startswith("create_time_table") and "from_scratch" in f.name):
+            continue
+        cfg = f.cfg
+        S = {bb for g, bb in capacity_comparisons(f) if g is f}
+        for c in f.calls:
+            if c.trait and not c.resolved:
+                continue
+            if any("/cumulative/" in h.file and compares_capacity_deep(lib, h) for h in lib.callees(c)):
+                S.add(c.bb)
+        n += 1
+        around = cfg.reaches(0, cfg.returns, avoid=list(S | set(cfg.loop_heads())), strict=False) if 0 not in S else False
+        led.check(not around, rid, "%s:no-way-round-the-capacity-test" % f.name, f.span,
+                  "every loop-free path passes a capacity comparison (own or in a callee)",
+                  "%s can build and return a time-table on a path that compares no profile height with the "
+                  "capacity (a shortcut for 'simple' cases): a profile that alone exceeds the capacity is accepted "
+                  "by this variant and refuted by the others" % f.name)
     # (b) incremental insertion: every insert call in add_to_time_table
     for f in lib.fns.values():
         if f.name != "add_to_time_table" or "/cumulative/" not in f.file:
@@ -593,5 +613,6 @@ def run(ctx, led):
     run_rule(led, "H10", "the cached profile explanation is reset whenever the profile changes (shared with C17-L12)", _C17.l12, ctx)
     run_rule(led, "H11", "WITNESS-POINT of pointwise hole explanations lies in the profile and in the task's run", h11, ctx)
     run_rule(led, "H13", "incremental insertion handles the gap and the overlap for every overlapped profile (MUST-PASS on the loop)", h13, ctx)
+    run_rule(led, "H16", "CACHE-KEY: the per-profile explanation cache is initialised from the profile only (shared with C17-L25)", _C17.l25, ctx)
     run_rule(led, "H15", "WHO-MAY-SHRINK: tasks leave a resource profile only where a mandatory part is undone (shared with C17-L24)", _C17.l24, ctx)
     run_rule(led, "H14", "reasons assembled from several profiles are the union of their parts (shared with C17-L21)", _C17.l21, ctx)
